@@ -49,6 +49,28 @@ FOCUS3 = {
  "C19": "log records reach the backend in iteration order with the cumulative number of environment steps; the smoothing factor of the episode statistics; statistics kept separately per environment",
  "C20": "velocity command and gait frequency within their configured ranges (zero command for the standing tasks); every non-randomised model parameter equals the nominal one; desired foot heights vanish at phase -pi and peak at phase 0",
 }
+FOCUS4 = {
+ "C01": "wrapper stacks two or three deep (observation / reward / action wrappers around or inside TimeLimit), environments offering action masks, and which state's observation / info is returned on the flagged step",
+ "C02": "the declared ACTION space of action wrappers (RescaleAction, ClipAction) versus the actions they accept and forward; observation bounds of a classic-control environment exactly at its state limits; dtype of rewards and flags under wrappers",
+ "C03": "the time axis (ordering, first / last step), a non-default gamma, and the vmapped (several environments) use of compute_returns_and_advantages",
+ "C04": "the A2C / REINFORCE collection paths, the recorded policy state and action mask, and which key / observation the recorded value and log-probability belong to",
+ "C05": "the SAC (Box action) path, the stored next policy state and action mask, and several environments combined with a TimeLimit wrapper",
+ "C06": "ReplayBuffer.add with pytree-structured observations / policy states and the relation between position, current_size and the slots that count as written",
+ "C07": "DQN: the greedy action is chosen by the ONLINE network and evaluated by the TARGET network; the loss uses the online value of the action actually taken; the discount gamma",
+ "C08": "the entropy term (sign and weight), the approximate KL statistic, and that the PPO ratio is taken against the STORED log-probabilities",
+ "C09": "the public RolloutBuffer.sample / batches / gather API on pytree-structured fields, and batch_indices called without a key",
+ "C10": "off-by-one relations between the iteration counter and the DQN target update; the temperature changing only with autotune; num_iterations of the off-policy algorithms",
+ "C11": "hidden non-determinism or hidden inputs: wall-clock time, process ids, hash randomisation, object identity, or observer-generated names leaking into the training state",
+ "C12": "policy and distribution functions, or Pendulum / CartPole component functions, giving the same result eagerly, under jit and under vmap",
+ "C13": "the Gymnax adapters and GymToLeraxEnv; TransformAction with a mask_func; RescaleObservation / ClipAction advertised spaces",
+ "C14": "MultiDiscrete / MultiBinary contains on wrong dtypes or shapes; nested Tuple / Dict canonical() and sample(); Box.sample with one-sided infinite bounds",
+ "C15": "laws parameterised by probs rather than logits; the mode of squashed laws; the sequence form of MultiCategorical in sample_and_log_prob",
+ "C16": "MultiCategorical masks in flat and sequence form, Bernoulli masks, and the deterministic / epsilon-greedy modes of SAC and Q policies",
+ "C17": "CartPole thresholds and the reward on the terminating step, or the reward / observation of Pusher, Reacher, Swimmer, HalfCheetah or InvertedDoublePendulum against Gymnasium v5",
+ "C18": "serialize called inside jit (ordering of the host callback), no_suffix=True, and the SAC policy round trip",
+ "C19": "LoggingCallbackStepState.next with several environments, the smoothing factor, and average_reward's number of episodes and per-episode keys",
+ "C20": "G1Standup / G1Standing specifics, the gait phase observation, the desired foot-height function between its end points, and snapping the robot to the ground at reset",
+}
 T = open("/verif/tools/seed_prompt_template.txt").read()
 for pid, p in sorted(props.items()):
     if only and pid not in only:
@@ -59,6 +81,6 @@ for pid, p in sorted(props.items()):
         subprocess.run(["git", "-C", "/repo", "worktree", "add", "--detach", wt, "HEAD"], check=True, capture_output=True)
     txt = (T.replace("@WT@", wt).replace("@ID@", pid).replace("@TITLE@", p["title"]).replace("@STATEMENT@", p["statement"])
            .replace("@QUANT@", p["quantifier"]["text"]).replace("@FILES@", ", ".join(p["anchors"]["files"]))
-           .replace("@FOCUS@", (FOCUS3 if tag == "3" else FOCUS)[pid]))
+           .replace("@FOCUS@", ({"3": FOCUS3, "4": FOCUS4}.get(tag, FOCUS))[pid]))
     open(f"/tmp/prompt_{tag}_{pid}.txt", "w").write(txt)
     print(pid, wt)
